@@ -1420,6 +1420,56 @@ func genCliMailRefused(rng *rand.Rand, thorough bool, emit func(*Sx)) {
 	}
 }
 
+// genCliDataRefused: the server refuses DATA (451/554) although recipients were accepted; the caller asks again,
+// with or without another Rcpt in between: the recipients of the transaction are still the accepted ones
+func genCliDataRefused(rng *rand.Rand, thorough bool, emit func(*Sx)) {
+	for _, lmtp := range []bool{true, false} {
+		for _, cb := range []bool{true, false} {
+			for _, code := range []string{"451 4.3.0 not now", "554 5.5.1 no"} {
+				for variant := 0; variant < 3; variant++ {
+					if !lmtp && cb {
+						continue
+					}
+					hello := "250-srv\r\n250 PIPELINING\r\n"
+					stream := "220 ready\r\n" + hello + "250 ok\r\n250 ok r1\r\n250 ok r2\r\n" + code + "\r\n"
+					dc := cliCall{kind: "lmtpdata", cb: cb}
+					if !lmtp {
+						dc = cliCall{kind: "data"}
+					}
+					calls := []cliCall{{kind: "mail", s: "a@b"}, {kind: "rcpt", s: "r1@x"}, {kind: "rcpt", s: "r2@x"}, dc}
+					n := 2
+					switch variant {
+					case 1:
+						stream += "250 ok r3\r\n"
+						calls = append(calls, cliCall{kind: "rcpt", s: "r3@x"})
+						n = 3
+					case 2:
+						stream += "550 5.1.1 no r3\r\n"
+						calls = append(calls, cliCall{kind: "rcpt", s: "r3@x"})
+					}
+					stream += "354 go\r\n"
+					if lmtp {
+						stream += "250 2.0.0 first\r\n550 5.1.1 second\r\n"
+						if n == 3 {
+							stream += "452 4.2.2 third\r\n"
+						}
+					} else {
+						stream += "250 2.0.0 queued\r\n"
+					}
+					stream += "250 2.0.0 noop\r\n250 2.1.0 next mail\r\n221 bye\r\n"
+					calls = append(calls, dc, cliCall{kind: "write", body: []byte("hello\r\n")}, cliCall{kind: "close"},
+						cliCall{kind: "noop"}, cliCall{kind: "mail", s: "next@b"}, cliCall{kind: "quit"})
+					cs := cliCase{lmtp: lmtp, stream: []byte(stream), focus: "data-refused", calls: calls}
+					if variant != 1 {
+						cs.cuts = randCuts(rng, cs.stream)
+					}
+					emit(runCli(cs))
+				}
+			}
+		}
+	}
+}
+
 func GenCli(rng *rand.Rand, thorough bool, emit func(*Sx)) {
 	genCliC15(rng, thorough, emit)
 	genCliBody(rng, thorough, emit)
@@ -1435,4 +1485,5 @@ func GenCli(rng *rand.Rand, thorough bool, emit func(*Sx)) {
 	genCliOrcptSpace(rng, thorough, emit)
 	genCliAuthThenReEhlo(rng, thorough, emit)
 	genCliMailRefused(rng, thorough, emit)
+	genCliDataRefused(rng, thorough, emit)
 }
